@@ -101,25 +101,31 @@ pub fn gen_case(c: &mut Choices) -> Case {
             // literal with some of the keys in various spellings
             let mut parts = vec![];
             if c.bool() {
-                parts.push(match c.pick(3) {
+                parts.push(match c.pick(5) {
                     0 => "props: [\"lit\"]",
                     1 => "\"props\": [\"lit\"]",
+                    2 => "[\"props\"]: [\"lit\"]",
+                    3 => "get props() { return [\"lit\"]; }",
                     _ => "props",
                 });
                 written_keys.push("props");
             }
             if c.bool() {
-                parts.push(match c.pick(3) {
+                parts.push(match c.pick(5) {
                     0 => "emits: [\"litEv\"]",
                     1 => "\"emits\": [\"litEv\"]",
+                    2 => "[\"emits\"]: [\"litEv\"]",
+                    3 => "get emits() { return [\"litEv\"]; }",
                     _ => "emits",
                 });
                 written_keys.push("emits");
             }
             if c.bool() {
-                parts.push(match c.pick(3) {
+                parts.push(match c.pick(5) {
                     0 => "name: \"LitName\"",
                     1 => "\"name\": \"LitName\"",
+                    2 => "[\"name\"]: \"LitName\"",
+                    3 => "get name() { return \"LitName\"; }",
                     _ => "name",
                 });
                 written_keys.push("name");
@@ -128,6 +134,9 @@ pub fn gen_case(c: &mut Choices) -> Case {
             labels.push("shape=literal-with-keys".into());
             if parts.iter().any(|p| p.starts_with('"')) {
                 labels.push("quoted-option-key".into());
+            }
+            if parts.iter().any(|p| p.starts_with('[') || p.starts_with("get ")) {
+                labels.push("computed-or-getter-option-key".into());
             }
             if parts.iter().any(|p| *p == "props" || *p == "emits" || *p == "name") {
                 labels.push("shorthand-option-key".into());
@@ -305,7 +314,7 @@ impl Property for C20 {
         "C20"
     }
     fn rule(&self) -> String {
-        "binding provenance of the callee {named import from 'vue'; aliased import; another vue export imported as defineComponent; namespace member; local function; shadowing parameter; shadowing inner const; named import from another module; global} x call shape {setup only; object literal without / with props, emits, name written as key: v, \"key\": v or shorthand; literal with a spread first / last / mixed; identifier or call as options; spread argument list at index 0 / 1, last or followed by another argument; options-API object} x declaration kind {const / let / var declarator, export const, export default, assignment, argument position} x annotated or plain setup x resolveType on/off; the env supplies user option objects that do / do not contain props, emits, name. Oracle: every call is recorded (mock vue defineComponent, 'other' module stub, local / global recorders); the same module transformed with resolveType off gives the written arguments; expected: non-augmentable calls (any provenance but the vue named import, resolveType off, spread argument list) receive exactly the written arguments; augmentable calls receive the written options plus props / emits (from the annotations) / name (variable declarators only) for exactly the keys the user did not supply, the user's values (literal or through a spread / identifier / call at run time) always winning. non-trivial = user-supplied key present on an augmentable call, or non-vue provenance with an annotated setup and resolveType on; distinct by hash(source, options, env)".into()
+        "binding provenance of the callee {named import from 'vue'; aliased import; another vue export imported as defineComponent; namespace member; local function; shadowing parameter; shadowing inner const; named import from another module; global} x call shape {setup only; object literal without / with props, emits, name written as key: v, \"key\": v, [\"key\"]: v, a getter or shorthand; literal with a spread first / last / mixed; identifier or call as options; spread argument list at index 0 / 1, last or followed by another argument; options-API object} x declaration kind {const / let / var declarator, export const, export default, assignment, argument position} x annotated or plain setup x resolveType on/off; the env supplies user option objects that do / do not contain props, emits, name. Oracle: every call is recorded (mock vue defineComponent, 'other' module stub, local / global recorders); the same module transformed with resolveType off gives the written arguments; expected: non-augmentable calls (any provenance but the vue named import, resolveType off, spread argument list) receive exactly the written arguments; augmentable calls receive the written options plus props / emits (from the annotations) / name (variable declarators only) for exactly the keys the user did not supply, the user's values (literal or through a spread / identifier / call at run time) always winning. non-trivial = user-supplied key present on an augmentable call, or non-vue provenance with an annotated setup and resolveType on; distinct by hash(source, options, env)".into()
     }
     fn assumptions(&self) -> Vec<String> {
         vec![
